@@ -18,3 +18,5 @@ mod escape;
 mod js_bindings;
 mod path;
 mod proc_gen;
+#[cfg(feature = "verif-hooks")]
+pub mod verif;
